@@ -139,6 +139,7 @@ struct Env {
     long recvOn = 0, strayLegit = 0, strayPhantom = 0;  // stanzas injected since the last <enabled/>
     bool inAckOp = false;
     long curH = 0;
+    bool reentOnDisc = false;      // ... also the continuations of "disconnected" reports (resetCache)
     bool reentArmed = false;       // the current op fires reports whose continuation sends a stanza
     std::vector<int> nestedNow;    // packets sent from inside reports during the current op
     std::vector<int> coveredByFailed;  // pending packets the server declared handled in <failed h/>
@@ -261,7 +262,7 @@ struct Env {
         }
         pend.erase(std::remove(pend.begin(), pend.end(), id), pend.end());
         // a client whose delivery-report continuation sends the next stanza (depth one: nested packets do not nest again)
-        if (acked && reentArmed && !pk[id].nested && !tearing) nestedSend();
+        if ((acked || (kind == "edisc" && reentOnDisc)) && reentArmed && !pk[id].nested && !tearing) nestedSend();
     }
     void nestedSend()
     {
@@ -431,13 +432,19 @@ struct Env {
         TestClient::socketDisconnected(c);
         line("closed");
     }
-    void resetCache()
+    void resetCache(bool reent = false)
     {
+        std::string armed = armedList();
+        reentArmed = reentOnDisc = reent;
         sam().resetCache();
+        reentArmed = reentOnDisc = false;
+        // every stanza sent from a report must itself get a report (stored and reported later, or at once)
+        for (int id : nestedNow)
+            if (pk[id].reports == 0 && std::find(pend.begin(), pend.end(), id) == pend.end()) { oracleFail("C09:report:lost-sent-during-resetCache", history); break; }
         srvValid = false;  // what was dropped can no longer be retransmitted: the two counts are not comparable afterwards
         pend.erase(std::remove_if(pend.begin(), pend.end(), [&](int id) { return pk[id].iq; }), pend.end());
         if (!pend.empty()) oracleFail("C09:report:lost", history); else oraclePass()++;
-        line("clearCache");
+        line(reent ? "clearCache r" + armed + " " + ud(false) : std::string("clearCache"));
     }
     // what the op must put on the wire: the stored packets to transmit again, in order, then newer traffic (stanzas the
     // delivery reports of this op sent)
@@ -509,12 +516,14 @@ struct Env {
         return "<failed xmlns='urn:xmpp:sm:3' h='" + QByteArray::number(qlonglong(h)) + "'><item-not-found xmlns='urn:ietf:params:xml:ns:xmpp-stanzas'/></failed>";
     }
     // ---- <enabled/> (classic: own element; Bind2: inside <bound/>)
-    struct EnabledCtx { std::vector<int> all, uncovered; };
+    struct EnabledCtx { std::vector<int> all, uncovered; std::string armed; };
     EnabledCtx preEnabled(const Rc &rc)
     {
         history += "{enabledNew}";
         EnabledCtx x;
         x.all = pend;
+        x.armed = armedList();
+        reentArmed = rc.reent;
         for (int id : pend) if (std::find(coveredByFailed.begin(), coveredByFailed.end(), id) == coveredByFailed.end()) x.uncovered.push_back(id);
         srvOn = true; srvValid = true; srvCount = 0; srvLastAck = 0;
         dirty = rc.forceDown;
@@ -523,6 +532,7 @@ struct Env {
     void postEnabled(const Rc &rc, const EnabledCtx &x)
     {
         // "covered ones are never resent": what <failed h/> declared handled must not be transmitted again on the new session
+        reentArmed = false;
         bool up = !rc.forceDown;
         if (up && x.all != x.uncovered && wirePkts.size() >= x.all.size() && std::equal(x.all.begin(), x.all.end(), wirePkts.begin())) {
             oracleFail("C09:resend:covered-by-failed-h", history);
@@ -541,7 +551,10 @@ struct Env {
         recvOn = strayLegit = strayPhantom = 0;
         checkServerCount();
         if (rc.sasl2) stat("enabled_inline_bind2");
-        line(std::string("enabledNew ") + ud(rc.forceDown));
+        // a stanza sent from a report while <enabled/> is processed belongs to the new session: numbered
+        for (int id : nestedNow) if (pk[id].seq == 0) { oracleFail("C09:reentrant-send:not-numbered", history); break; }
+        if (rc.reent) stat("enabled_reentrant");
+        line(std::string("enabledNew ") + (rc.reent ? "r" + x.armed + " " : "") + ud(rc.forceDown));
     }
 
     // a new connection; the scripted server reacts to what the client writes
@@ -669,6 +682,7 @@ struct Env {
             reconnectScript(r);
         }
         else if (sym == "C") resetCache();
+        else if (sym == "Cr") resetCache(true);
         else { fprintf(stderr, "harness: unknown symbol %s\n", sym.c_str()); exit(3); }
     }
 };
@@ -781,10 +795,13 @@ int main(int argc, char **argv)
     runSeq({ "E", "N", "m", "R=" }, true);                // witness of the defect fixed by repo commit 6d4ec74: <resume h/> counted a stanza received on a session without SM
     runSeq({ "E", "I", "Jr", "q" }, true);                // a response to a tracked request is a stanza of the session: <a h=1/>
     runSeq({ "E", "I", "I", "Je", "L", "R=", "Jr", "q" });
-    runSeq({ "E", "s", "s", "L", "R-r", "s", "a=" }, true);   // witness: a delivery report fired by <resumed/> sends a stanza -> written before the resent ones, not numbered
-    runSeq({ "E", "s", "s", "s", "L", "Eh-", "a=" }, true);   // witness: <failed h='2'/> ignored, the two handled stanzas are transmitted again
+    runSeq({ "E", "s", "s", "L", "R-r", "s", "a=" }, true);   // witness of the defect fixed by 250563e: a delivery report fired by <resumed/> sends a stanza (was: written before the resent ones, not numbered)
+    runSeq({ "E", "s", "s", "s", "L", "Eh-", "a=" }, true);   // witness of the defect fixed by 7bf4745: <failed h='2'/> was ignored, the two handled stanzas were transmitted again
     runSeq({ "E2", "s", "s", "L", "R2-", "s", "L", "E2h=", "a=" }, true);  // SASL2 inline <resume/>, Bind2 inline <enable/>
     runSeq({ "E", "s", "s", "a+r", "a=", "L", "R2=r" });
+    runSeq({ "E", "s", "s", "s", "L", "Eh-r", "s", "a=" }, true);  // covered by <failed h/>: reported after the resend, their continuations send numbered stanzas
+    runSeq({ "E", "s", "s", "Cr", "q", "s", "a=" });              // a continuation sending during resetCache (reported, not dropped)
+    runSeq({ "E", "s", "s", "L", "Eh=", "Cr", "E" });
     runSeq({ "N2", "s", "E", "s", "L", "F2", "m", "L", "R=" });
     runSeq({ "E", "F", "p", "i", "q", "R-", "q" });
     runSeq({ "E", "s", "s", "s", "a-", "L", "s", "R-", "a=" }, true);
@@ -799,7 +816,7 @@ int main(int argc, char **argv)
     if (a.mode == "probe") {
         samplesLeft() = 100;
         for (const char *q : { "E s s a=r q", "E s s L R-r s a=", "E s s L R=r s a=", "E s s s L Eh- a=", "E s s L Eh= s", "E2 s s L R2- a=", "E s L E2 s L R2=r", "E2 s s L E2h- a=",
-                               "N2 s E s L F2 m L R=", "E s s a+r a=", "E s I s L R-r" }) {
+                               "N2 s E s L F2 m L R=", "E s s a+r a=", "E s I s L R-r", "E s s Cr q s a=", "E s s L Cr E a=" }) {
             std::vector<std::string> syms;
             std::string w;
             for (const char *c = q;; c++) { if (*c == ' ' || !*c) { if (!w.empty()) syms.push_back(w); w.clear(); if (!*c) break; } else w += *c; }
@@ -814,32 +831,28 @@ int main(int argc, char **argv)
         return 0;
     }
     // re-entrant delivery reports at both ack sites, <failed h/>; SASL2/Bind2 inline negotiation
-    const std::vector<std::string> coreRe = { "s", "a=r", "a+r", "a-", "q", "L", "R-r", "R=r", "E", "Eh-" };
+    const std::vector<std::string> coreRe = { "s", "a=r", "a-r", "a+r", "q", "L", "R-r", "Eh-r", "Cr", "E" };
     const std::vector<std::string> coreS2 = { "s", "a-", "q", "m", "L", "E2", "R2-", "R2=r", "E2h-", "F2", "N2" };
     std::vector<std::string> wide31 = wide;
-    for (auto x : { "a=r", "R-r", "Eh-", "Eh=", "E2", "R2-", "R2=", "N2", "F2" }) wide31.push_back(x);
+    for (auto x : { "a=r", "R-r", "Eh-", "Eh=", "E2", "R2-", "R2=", "N2", "F2", "Eh-r", "Cr" }) wide31.push_back(x);
     stat("exh_coreRe10_depth5", enumerate(coreRe, 5));
-    stat("exh_wide31_depth3", enumerate(wide31, 3));
-    stat(thorough ? "exh_coreS2_11_depth5" : "exh_coreS2_11_depth4", enumerate(coreS2, thorough ? 5 : 4));
-    if (thorough) stat("exh_prefixEss_coreRe10_depth5", enumerate(coreRe, 5, { "E", "s", "s" }));
+    stat("exh_wide33_depth3", enumerate(wide31, 3));
+    stat("exh_coreS2_11_depth4", enumerate(coreS2, 4));
+    stat("exh_core11_depth5", enumerate(core11, 5));
+    stat("exh_prefixEsd_core9_depth5", enumerate(core9, 5, { "E", "s", "d" }));
     if (thorough) {
-        stat("exh_core7_depth7", enumerate(core7, 7));
-        stat("exh_core9_depth6", enumerate(core9, 6));
-        stat("exh_core11_depth5", enumerate(core11, 5));
-        stat("exh_wide22_depth4", enumerate(wide, 4));
-        // from a session that already holds two stored stanzas (the second one with a failed write)
-        stat("exh_prefixEsd_core9_depth6", enumerate(core9, 6, { "E", "s", "d" }));
-    } else {
-        stat("exh_core11_depth5", enumerate(core11, 5));
-        stat("exh_prefixEsd_core9_depth5", enumerate(core9, 5, { "E", "s", "d" }));
+        // kept under ~8M correspondence lines in total (the comparison holds all lines in memory)
+        stat("exh_core7_depth6", enumerate(core7, 6));
+        stat("exh_prefixEss_coreRe10_depth5", enumerate(coreRe, 5, { "E", "s", "s" }));
+        stat("exh_prefixE2ss_coreS2_11_depth4", enumerate(coreS2, 4, { "E2", "s", "s" }));
     }
 
     // seeded random histories up to 60 symbols, including failed writes during every kind of operation
     std::vector<std::string> rnd = wide31;
-    for (auto x : { "a-r", "a+r", "R=r", "R2=r", "R2-r", "R2+", "E2h-", "E2h=", "E2d", "R2-d", "R-rd", "Ehd" }) if (std::string(x) != "Ehd") rnd.push_back(x);
+    for (auto x : { "a-r", "a+r", "R=r", "R2=r", "R2-r", "R2+", "E2h-", "E2h=", "E2h-r", "Eh=r", "Er", "E2d", "R2-d", "R-rd", "Eh-rd" }) rnd.push_back(x);
     for (auto s : { "s", "s", "s", "a=", "a-", "m", "q", "nd", "qd", "Ed", "R-d", "R-", "E", "L", "I", "I", "Id", "Jr", "Jr", "Je" }) rnd.push_back(s);
     Rng rng(a.seed);
-    int nrand = thorough ? 40000 : 4000;
+    int nrand = thorough ? 16000 : 4000;
     for (int i = 0; i < nrand; i++) {
         int len = 1 + rng.below(60);
         std::vector<std::string> syms;
